@@ -14,6 +14,9 @@ import time
 from .. import core, gen, obs
 
 
+FORCE_BLANK = None      # replay: the blank rules file of the recorded case (False = none)
+
+
 def make_batch(rng):
     """returns (rules texts, docs) - rules share names `v`, `dep`, `r0..`; docs differ in the keys they query"""
     keys = rng.sample(["a", "b", "c", "n", "k"], 3)
@@ -180,9 +183,18 @@ def shard(ctx):
                 rng.shuffle(a)
                 rng.shuffle(b)
             orders.append((a, b))
-        base_case = {"rules": rules, "data": dtexts}
+        # 40% of the batches also hold a rules file that is empty or blank: it contributes no pair, and the files given (or walked) after it
+        # still do
+        blank = FORCE_BLANK if FORCE_BLANK is not None else (rng.choice(["", "  \n\n", "\n"]) if rng.random() < 0.4 else None)
+        if blank is not None and blank is not False:
+            fl["rules/a_blank.guard"] = blank
+            ctx.res.counts["batches_with_blank_rules_file"] += 1
+        base_case = {"rules": rules, "data": dtexts, "blank": blank if blank is not None else False}
         for (a, b) in orders:
             rargs = [x for i in a for x in ("-r", "{S}/rules/r%d.guard" % i)]
+            if blank is not None and blank is not False:
+                pos_ = 2 * rng.randrange(len(a) + 1)
+                rargs[pos_:pos_] = ["-r", "{S}/rules/a_blank.guard"]
             dargs = [x for j in b for x in ("-d", "{S}/data/" + DN(j))]
             # plain mode: one report per (rules, data), rules-major
             r = ctx.w.run({"k": "cli", "argv": ["validate"] + rargs + dargs + IT + ["-S", "none", "-o", "json"], "files": fl, "events": True})
@@ -410,8 +422,9 @@ def replay(case, w):
             found.append(sig)
     import random
     c = Ctx(w, 0, 1, 1, "quick", res, {"prop": "C12"})
-    global make_batch
+    global make_batch, FORCE_BLANK
     orig = make_batch
+    FORCE_BLANK = case.get("blank", False)
     try:
         make_batch = lambda rng: (case["rules"], [json.loads(d) for d in case["data"]])
         c.rng = lambda tag="": random.Random(7)
@@ -428,6 +441,7 @@ def replay(case, w):
             pass
     finally:
         make_batch = orig
+        FORCE_BLANK = None
     return not found, "violations: %s" % sorted(set(found))
 
 
